@@ -160,6 +160,31 @@ pub mod c05_full {
     kmodel!(terminal, 9, crate::h_engine::c11_terminal());
 }
 
+/// lemma under indicator keys (no observer, no lookup model)
+macro_rules! kpsq {
+    ($name:ident, $unwind:expr, $call:expr) => {
+        #[kani::proof]
+        #[kani::unwind($unwind)]
+        #[kani::stub(inkayaku_board::board::zobrist::Zobrist::piece_square_hash, psq_indicator)]
+        pub fn $name() { $call }
+    };
+}
+
+#[cfg(feature = "c06")]
+pub mod c06_occ {
+    use super::*;
+    kpsq!(w_p, 66, crate::h_zobrist::c06_occ(P, 0));
+    kpsq!(b_p, 66, crate::h_zobrist::c06_occ(P, 1));
+    kpsq!(w_n, 66, crate::h_zobrist::c06_occ(N, 0));
+    kpsq!(b_n, 66, crate::h_zobrist::c06_occ(N, 1));
+    kpsq!(w_b, 66, crate::h_zobrist::c06_occ(B, 0));
+    kpsq!(b_b, 66, crate::h_zobrist::c06_occ(B, 1));
+    kpsq!(w_r, 66, crate::h_zobrist::c06_occ(R, 0));
+    kpsq!(b_r, 66, crate::h_zobrist::c06_occ(R, 1));
+    kpsq!(w_q, 66, crate::h_zobrist::c06_occ(Q, 0));
+    kpsq!(b_q, 66, crate::h_zobrist::c06_occ(Q, 1));
+}
+
 #[cfg(feature = "c06")]
 pub mod c06_lemma {
     use super::*;
@@ -205,6 +230,11 @@ pub mod c11 {
     kplain!(eval1_pnb, 4, crate::h_engine::c11_eval(1, 0b001110));
     kplain!(eval1_rq, 4, crate::h_engine::c11_eval(1, 0b110000));
     kplain!(eval2_p, 4, crate::h_engine::c11_eval(2, 0b000010));
+    kplain!(eval2_n, 4, crate::h_engine::c11_eval(2, 0b000100));
+    kplain!(eval2_b, 4, crate::h_engine::c11_eval(2, 0b001000));
+    kplain!(eval2_r, 4, crate::h_engine::c11_eval(2, 0b010000));
+    kplain!(eval2_q, 4, crate::h_engine::c11_eval(2, 0b100000));
+    kplain!(eval3_p, 5, crate::h_engine::c11_eval(3, 0b000010));
     kplain!(factor, 2, crate::h_engine::c11_factor());
     kmodel!(terminal, 9, crate::h_engine::c11_terminal());
     kplain!(mate_distance, 2, crate::h_engine::c11_mate_distance());
@@ -217,6 +247,8 @@ pub mod c15 {
     kplain!(square, 2, crate::h_uci::c15_square());
     kplain!(square_text, 4, crate::h_uci::c15_square_text());
     kplain!(roundtrip, 8, crate::h_uci::c15_roundtrip());
+    kplain!(uci_text, 14, crate::h_uci::c13_uci_text());
+    kplain!(text_parts, 14, crate::h_uci::c13_text_parts());
     kplain!(go_tokens, 14, crate::h_cmd::c15_go_tokens());
     kplain!(numbers, 14, crate::h_cmd::c15_numbers());
     kplain!(searchmoves_0, 14, crate::h_cmd::c15_searchmoves(0));
